@@ -496,6 +496,78 @@ def rule_output_shapes(rep, repo, rule="R10"):
   return n
 
 
+def rule_layers_own_their_quantizers(rep, repo, rule="R11"):
+  """Two converted layers of one class never share a quantizer object: each
+  exported quantized layer class is built twice in ONE interpreter (own
+  constructors) from different quantizer strings - the way model_quantize
+  builds a model - and (a) no quantizer object is held by both layers, (b)
+  the first layer's quantizers still have the bit widths they were
+  configured with after the second layer has been built."""
+  from .c13 import layer_pe, exported_classes
+  from ..pe import ClassRef
+  n = 0
+  skipped = {}
+  for name, ci in sorted(exported_classes(repo).items()):
+    params = [p for p, _ in ci.init_params()[0]]
+    qparams = [p for p in params if p.endswith("_quantizer")]
+    if name == "QBatchNormalization":
+      qparams = [p for p in qparams if p != "inverse_quantizer"]
+    adaptive = name == "QAdaptiveActivation"
+    if not qparams and not adaptive and name != "QActivation":
+      continue
+    unit = "%s::%s.__init__" % (ci.module.relpath, name)
+
+    def kwargs(bits):
+      kw = {p: "quantized_bits(%d,0,1)" % bits for p in qparams}
+      if adaptive:
+        kw.update(activation="quantized_relu", total_bits=bits)
+      elif name == "QActivation":
+        kw["activation"] = "quantized_relu(%d)" % bits
+      for p_, v_ in (("units", 4), ("filters", 8), ("kernel_size", 3),
+                     ("pool_size", 2)):
+        if p_ in params:
+          kw[p_] = v_
+      return kw
+
+    def quantizer_objects(layer):
+      out = {}
+      holders = [layer]
+      if isinstance(layer.attrs.get("cell"), Obj):
+        holders.append(layer.attrs["cell"])
+      for h in holders:
+        for k, v in h.attrs.items():
+          if isinstance(v, Obj) and "bits" in v.attrs and k != "cell":
+            out[k] = v
+      return out
+    pe = layer_pe(repo, ci, name)
+    try:
+      a = pe.call(ClassRef(ci), [], kwargs(3))
+      qa = quantizer_objects(a)
+      bits_a = {k: v.attrs.get("bits") for k, v in qa.items()}
+      b = pe.call(ClassRef(ci), [], kwargs(6))
+      qb = quantizer_objects(b)
+    except (PyRaise, Unsupported) as e:
+      skipped[name] = str(e)[:100]
+      continue
+    if not qa:
+      continue
+    rep.unit(unit)
+    n += 1
+    shared = sorted(k for k, v in qa.items()
+                    if any(v is w for w in qb.values()))
+    changed = sorted("%s: bits %s -> %s" % (k, bits_a[k], v.attrs.get(
+        "bits")) for k, v in qa.items() if v.attrs.get("bits") != bits_a[k])
+    rep.check(not shared and not changed, rule, unit,
+              "layers-share-a-quantizer-object",
+              "two %s layers built from different quantizer strings: "
+              "quantizer object(s) held by both: %s; quantizers of the "
+              "first layer changed by building the second: %s" % (
+                  name, shared or "none", changed or "none"),
+              loc=ci.loc(), instance=name)
+  rep.extra["own_quantizer_layers_not_interpretable"] = skipped
+  return n
+
+
 def run(rep, repo, tier):
   um = repo.module(UM)
   unit = "%s::model_quantize" % um.relpath
@@ -805,6 +877,8 @@ def run(rep, repo, tier):
   rule_activation_names(rep, repo)
   rule_output_shapes(rep, repo)
   rep.require_instances("R10", 20)
+  rule_layers_own_their_quantizers(rep, repo)
+  rep.require_instances("R11", 12)
   rep.require_instances("R8", 50)
   rep.require_instances("R1", 10)
   rep.require_instances("R4", 10)
